@@ -348,6 +348,7 @@ def check(pid, tier, seed, replay=None):
     for st in streams:
         ts = time.time()
         impl, model, spec = eval_stream(st)
+        st.impl_results, st.model_results = impl, model     # later streams may be derived from these
         n = len(st.ops)
         total += n
         bad = {}
